@@ -100,6 +100,7 @@ type Exec struct {
 	Points  []PointRec
 	Steps   int
 	Outcome string // "" (completed), "deadlock", "livelock", "crash", "panic: ..."
+	settled bool   // Settle() was called: default choices only, nothing recorded
 	Leaked  int    // threads still parked for good when the scenario body had returned (not an outcome)
 	Stack   string
 	bounds  Bounds
@@ -181,7 +182,7 @@ func (x *Exec) nextChoice(n int, env bool, seam Seam, preempt bool) int {
 // budget is exhausted (or zero) the default is returned without recording a point.
 func Choose(seam Seam, n int) int {
 	x := cur
-	if x == nil || x.atomic > 0 || x.killed || n <= 1 {
+	if x == nil || x.atomic > 0 || x.killed || n <= 1 || x.settled {
 		return 0
 	}
 	if seam != SeamSelect && x.used[seam] >= x.bounds.Env[seam] {
@@ -215,7 +216,7 @@ func Point(k Kind, enabled func() bool) {
 		return
 	}
 	t := x.cur
-	if x.bounds.Env[SeamCrash] > 0 && x.used[SeamCrash] < x.bounds.Env[SeamCrash] {
+	if !x.settled && x.bounds.Env[SeamCrash] > 0 && x.used[SeamCrash] < x.bounds.Env[SeamCrash] {
 		if x.nextChoice(2, true, SeamCrash, false) == 1 {
 			x.tracef("  CRASH before T%d %s", t.id, k)
 			x.abort("crash")
@@ -245,6 +246,17 @@ func Abort(outcome string) {
 		x.abort(outcome)
 	}
 	panic(outcome)
+}
+
+// Settle ends the explored part of an execution: from here on the scheduler takes the default choice
+// at every decision (running thread first, then ascending ids; default environment answers) without
+// recording it, so the explorer has nothing left to vary. For the tail of a scenario whose outcome no
+// longer depends on the schedule (e.g. draining a long backlog once the interesting calls have
+// returned); what runs after it is covered under ONE schedule only and the scenario says so.
+func Settle() {
+	if x := cur; x != nil {
+		x.settled = true
+	}
 }
 
 // Yield is a plain scheduling point (used by harness sinks to model a slow consumer).
@@ -319,7 +331,7 @@ func (x *Exec) reschedule(t *thread) {
 		x.abort("deadlock")
 	}
 	idx := 0
-	if len(en) > 1 {
+	if len(en) > 1 && !x.settled {
 		idx = x.nextChoice(len(en), false, 0, curEnabled)
 	}
 	next := en[idx]
